@@ -236,6 +236,14 @@ static char **parsec_argv_split_inter(const char *src_string, int delimiter,
     }
 
     src_string = p + 1;
+
+    /* a trailing delimiter is followed by one last, empty, field */
+
+    if (include_empty && '\0' == *src_string) {
+      arg[0] = '\0';
+      if (PARSEC_SUCCESS != parsec_argv_append(&argc, &argv, arg))
+        return NULL;
+    }
   }
 
   /* All done */
